@@ -178,6 +178,13 @@ def interpreter_state():
            "environ": cdigest(sorted(os.environ.items())), "warnings.filters": len(warnings.filters),
            "numpy.printoptions": cdigest(canon({k: v for k, v in numpy.get_printoptions().items() if k != "formatter"}))}
     try:
+        import hashlib
+        import random as _r
+        out["random.state"] = hashlib.sha256(repr(_r.getstate()).encode()).hexdigest()[:16]
+        out["numpy.random.state"] = hashlib.sha256(repr(numpy.random.get_state()).encode()).hexdigest()[:16]
+    except Exception:
+        pass
+    try:
         import attr
         out["attr.validators.disabled"] = bool(attr.validators.get_disabled())
     except Exception:
